@@ -195,7 +195,17 @@ theorem lookupNode_spec (d : Disk) (pp : Path) (n : Name) :
     · refine ⟨fun a s' h => ?_, fun e s' h => ?_⟩ <;> simp [hn, fail] at h
       obtain ⟨_, rfl⟩ := h
       refine ⟨⟨hc, rfl⟩, ?_⟩
-      exact Classical.byContradiction fun hne => hn (hk.2 hne)
+      refine Classical.byContradiction fun hne => hn (hk.2 ?_)
+      rw [specStat_eq] at hne
+      cases he : expReals s.disk (n :: pp) with
+      | nil => rw [he] at hne; exact absurd rfl hne
+      | cons r rest =>
+        rw [he] at hne
+        simp only [headStat] at hne
+        by_cases hw : r.whiteout = true
+        · simp [hw] at hne
+        · simp only [Bool.not_eq_true] at hw
+          simp [needsNode, hw]
 
 /-- `do_lookup(pp, n)` below a visible directory answers exactly what the disk dictates -/
 theorem doLookup_spec (d : Disk) (pp : Path) (n : Name) :
